@@ -138,6 +138,8 @@ def check(res, tr, how):
     sc = tr.sc
     cfg = sc["cfg"]
     log = tr.w.net.log
+    if tr.capped and cons.report_spin(res, tr):
+        return
     if tr.capped:
         res.inconclusive.append("scenario aborted: %s" % getattr(tr, "cap_reason", "?"))
         return
